@@ -110,6 +110,16 @@ def core_det(tier):
             x0v = (lbv + frac * (ubv - lbv)) if j == 0 else (ubv - frac * (ubv - lbv))
             add(1, {"lb": [lbv], "ub": [ubv], "plb": [lbv * 0.31], "pub": [ubv * 0.47], "x0": [x0v]},
                 {"family": "linear", "w": [-1.0 if j == 0 else 1.0]}, {"max_fun_evals": 30}, tags=["x0nearbound", "lin"])
+        # hard bounds whose internal image lies exactly on search-mesh nodes (-3/+3, -2/+2), optimum outside: candidates
+        # are pushed onto the bound itself, where the inverse transform is inexact by an ulp and only its final
+        # clamp keeps the point inside the box
+        g = {"lb": [0.01, 0.01], "ub": [10, 10], "plb": [0.1, 0.1], "pub": [1, 1], "x0": [0.5, 0.4]}
+        add(2, g, {"family": "logquad", "min": [50.0, 0.001]}, {"max_fun_evals": 70}, tags=["log", "outside", "bound_on_mesh"])
+        g = {"lb": [0.2, 0.2], "ub": [1.4, 1.4], "plb": [0.5, 0.5], "pub": [1.1, 1.1], "x0": [0.8, 0.9]}
+        add(2, g, _quad(2, r, mn=[3.0, -1.0], cond=3.0), {"max_fun_evals": 70}, tags=["outside", "bound_on_mesh"])
+        g = {"lb": [0.01, 0.2, -6.0], "ub": [10, 1.4, 6.0], "plb": [0.1, 0.5, -2.0], "pub": [1, 1.1, 2.0], "x0": [0.5, 0.8, 1.0]}
+        add(3, g, {"family": "quad", "min": [40.0, 0.05, 9.0], "eig": [1.0, 2.0, 0.5], "rot_seed": 3}, {"max_fun_evals": 90},
+            tags=["mixedlog", "outside", "bound_on_mesh"])
         # widths from tiny to huge
         add(1, {"lb": [-1e-6], "ub": [1e-6], "plb": [-5e-7], "pub": [5e-7], "x0": [1e-7]},
             {"family": "quad", "min": [3e-7], "eig": [1e12], "rot_seed": 0}, tags=["tinywidth"])
